@@ -254,3 +254,77 @@ pub fn finish(
     }
     0
 }
+
+// ---------------------------------------------------------------------------------------------
+// chunked runs: a child process writes its Report as JSON, the parent merges them
+
+pub fn write_partial(path: &str, rep: &Report) -> i32 {
+    let v = json!({
+        "stats": rep.stats.iter().map(|s| json!({
+            "name": s.name, "params": s.params, "bound": s.bound, "executions": s.executions, "steps": s.steps,
+            "nodes": s.nodes, "outcomes": s.outcomes, "nontrivial_outcomes": s.nontrivial_outcomes,
+            "stuck_executions": s.stuck_executions, "timeouts": s.timeouts, "max_preemptions": s.max_preemptions,
+            "exhausted": s.exhausted, "wall_s": s.wall_s,
+        })).collect::<Vec<_>>(),
+        "violations": rep.violations.iter().map(|v| json!({
+            "scenario": v.scenario, "params": v.params, "bound": v.bound, "preemptions": v.preemptions,
+            "choices": v.choices, "sig": v.sig, "msg": v.msg, "log": v.log, "count": v.count,
+        })).collect::<Vec<_>>(),
+        "fatal": rep.fatal, "capped": rep.capped, "elision_redone": rep.elision_redone,
+        "samples": rep.samples.iter().map(|(h, l)| json!([h, l])).collect::<Vec<_>>(),
+    });
+    match std::fs::write(path, serde_json::to_string(&v).unwrap()) {
+        Ok(()) => 0,
+        Err(_) => 2,
+    }
+}
+
+pub fn merge_partial(into: &mut Report, p: &Value) {
+    use verif_rt::explore::ScenarioStats;
+    for s in p["stats"].as_array().cloned().unwrap_or_default() {
+        into.stats.push(ScenarioStats {
+            name: s["name"].as_str().unwrap_or("").to_string(),
+            params: s["params"].as_str().unwrap_or("").to_string(),
+            bound: s["bound"].as_u64().unwrap_or(0) as u32,
+            executions: s["executions"].as_u64().unwrap_or(0),
+            steps: s["steps"].as_u64().unwrap_or(0),
+            nodes: s["nodes"].as_u64().unwrap_or(0),
+            outcomes: s["outcomes"].as_u64().unwrap_or(0),
+            nontrivial_outcomes: s["nontrivial_outcomes"].as_u64().unwrap_or(0),
+            stuck_executions: s["stuck_executions"].as_u64().unwrap_or(0),
+            timeouts: s["timeouts"].as_u64().unwrap_or(0),
+            max_preemptions: s["max_preemptions"].as_u64().unwrap_or(0) as u32,
+            exhausted: s["exhausted"].as_bool().unwrap_or(false),
+            wall_s: s["wall_s"].as_f64().unwrap_or(0.0),
+        });
+    }
+    for v in p["violations"].as_array().cloned().unwrap_or_default() {
+        into.violations.push(Violation {
+            scenario: v["scenario"].as_str().unwrap_or("").to_string(),
+            params: v["params"].as_str().unwrap_or("").to_string(),
+            bound: v["bound"].as_u64().unwrap_or(0) as u32,
+            preemptions: v["preemptions"].as_u64().unwrap_or(0) as u32,
+            choices: v["choices"].as_array().map(|a| a.iter().filter_map(|x| x.as_u64().map(|n| n as u16)).collect()).unwrap_or_default(),
+            sig: v["sig"].as_str().unwrap_or("").to_string(),
+            msg: v["msg"].as_str().unwrap_or("").to_string(),
+            log: v["log"].as_array().map(|a| a.iter().filter_map(|x| x.as_str().map(|s| s.to_string())).collect()).unwrap_or_default(),
+            count: v["count"].as_u64().unwrap_or(1),
+        });
+    }
+    if into.fatal.is_none() {
+        into.fatal = p["fatal"].as_str().map(|s| s.to_string());
+    }
+    if into.capped.is_none() {
+        into.capped = p["capped"].as_str().map(|s| s.to_string());
+    }
+    into.elision_redone += p["elision_redone"].as_u64().unwrap_or(0) as usize;
+    if into.samples.len() < 3 {
+        for s in p["samples"].as_array().cloned().unwrap_or_default() {
+            if into.samples.len() < 3 {
+                let h = s[0].as_str().unwrap_or("").to_string();
+                let l = s[1].as_array().map(|a| a.iter().filter_map(|x| x.as_str().map(|s| s.to_string())).collect()).unwrap_or_default();
+                into.samples.push((h, l));
+            }
+        }
+    }
+}
